@@ -132,6 +132,23 @@ def run_case(c):
                 ok = np.allclose(got, exp, rtol=0, atol=1e-3 * (1 + sum(abs(ch["level"]) for ch in c["chirps"]))) if c["chirps"] else np.allclose(got, exp, rtol=0, atol=1e-12)
             if not ok:
                 res["mism"].append("request %d pol %d: voltages differ from the model-described sum (max diff %g)" % (gi, p, float(np.max(np.abs(got - exp)))))
+    # --- direct oracle for the signal formula: without noise, each sample is the sum of level*cos(+-2pi((f_start-fch1)t + drift t^2/2) + phase)
+    #     at the very times the stream handed to its sources (observed through the complex probe)
+    if c["chirps"] and not c["noise"] and c["probe"] == "complex":
+        tol = 1e-6 * (1 + sum(abs(ch["level"]) for ch in c["chirps"]))
+        for gi, out in enumerate(outs):
+            for p, v in enumerate(out):
+                tsv = np.imag(v)
+                want = np.zeros(len(tsv))
+                for chv in chirp_ref(c, tsv):
+                    want = want + chv
+                if not np.allclose(np.real(v), want, rtol=0, atol=tol):
+                    res["fails"].append(["chirp-formula", "request %d pol %d (%s band): constant-drift signal differs from level*cos(%s2*pi*((f_start-fch1)*t + drift*t^2/2) + phase) by %g; signals %s"
+                                         % (gi, p, "ascending" if c["ascending"] else "descending", "" if c["ascending"] else "-", float(np.max(np.abs(np.real(v) - want))), c["chirps"])])
+                    break
+            else:
+                continue
+            break
     # --- direct oracle: merged requests on an identical object
     obj2, streams2 = build(c)
     with np.errstate(all="ignore"):
